@@ -55,11 +55,17 @@ THEOREMS = [
 ]
 TRUSTED = [
     "Lean 4.33.0 kernel; axioms limited to propext, Classical.choice, Quot.sound",
-    "hand-written model lean/PV/C15/Model.lean of vendored/src/source_location/{line_index,newlines}.rs and "
-    "vendored/src/text_size/{range,size}.rs, tied to the code by the correspondence streams of this run",
+    "hand-written model lean/PV/C15/Model.lean of vendored/src/source_location/{line_index,newlines,mod}.rs and "
+    "vendored/src/text_size/{range,size,traits}.rs, tied to the code by the correspondence streams of this run",
     "contract of [T]::binary_search on a strictly increasing slice (modelled by a linear search)",
     "memchr2/memrchr2 modelled as first/last index of LF or CR",
     "str::chars().count() on valid UTF-8 = number of non-continuation bytes",
+    "str indexing by a usize range: panics exactly when start > end, end > len or an end is not a char boundary",
+    "u32 arithmetic with overflow checks on (the harness profile): +/- panic outside 0..=u32::MAX; NonZeroU32 "
+    "saturating_add, u32::saturating_add/sub",
+    "the &TextSize / &TextRange operator impls and AddAssign/SubAssign forward to the by-value operator (modelled "
+    "as the same value; each variant is executed and compared on every request)",
+    "Deref for LineIndex / Line / LineEnding are plain forwarding (executed by the harness, no theorem of their own)",
     "tools/props/c15.py (generator, independent Python oracle), harness/src/bin/pvh_c15.rs, lean/Drv/C15.lean",
 ]
 PARTIAL = []
@@ -68,12 +74,19 @@ TECHNIQUE = "Lean 4 theorems over a hand-written byte-level model + exhaustive/r
 LEVEL_TEXT = ("Machine-checked Lean 4 theorems, for texts of every length: the modelled line-start table equals the "
               "prefix sums of the reference line split, row/column lookups return the containing line and character "
               "column, every next/next_back interleaving of the newline iterator yields a front/back decomposition of "
-              "the reference split, and TextRange algebra agrees with the set reading. The model is tied to the Rust "
-              "code on every run by exhaustive small-scope plus random differential correspondence, and the real "
-              "code is additionally judged by an independent Python reference.")
+              "the reference split with the true offsets (start/end/full_end/range/full_range of every line, last(), the "
+              "trailing-empty-line variant, find_newline's LineEnding), and TextRange algebra agrees with the set reading: "
+              "containment, intersection, cover, cover_offset, shifting (checked and operator forms), moving one end "
+              "(add/sub_start/end), ordering, RangeBounds, slicing and mutable slicing by a range (exactly the bytes at "
+              "the offsets of the set; panics exactly when reversed, out of range or off a character boundary), "
+              "SourceCode::up_to/after/slice, TextSize sums, OneIndexed conversions and saturating arithmetic, each with "
+              "its exact panic condition. The model is tied to the Rust code on every run by exhaustive small-scope plus "
+              "random differential correspondence, and the real code is additionally judged by an independent Python "
+              "reference.")
 LEVEL_NOTE = ("Trusted: Lean kernel (axioms propext/Classical.choice/Quot.sound only), the hand-written model's "
-              "fidelity as sampled by correspondence (exhaustive to length 5/6 over a 6-symbol alphabet), Rust std "
-              "binary_search/memchr contracts, the harness and generator.")
+              "fidelity as sampled by correspondence (exhaustive to length 5/6 over a 6-symbol alphabet; all boundary "
+              "endpoint tuples incl. 0, 1, 2^32-2, 2^32-1), Rust std binary_search/memchr/str-indexing contracts, u32 "
+              "overflow checks being on in the harness build, the harness and generator.")
 RULE = ("request lines (text x query family) sent to both the real vendored crate and the Lean model; "
         "distinct = distinct request line; non-trivial = text is non-empty")
 
@@ -408,10 +421,12 @@ def streams(ctx):
     reqs = []
     for t in _texts(Li):
         n = len(_split_lines(t))
-        for ops in itertools.product("fb", repeat=n + 1):
-            reqs.append(f"nliter {hexs(t)} 0 {''.join(ops)}")
+        for k in range(n + 2):
+            for ops in itertools.product("fb", repeat=k):
+                reqs.append(f"nliter {hexs(t)} 0 {''.join(ops) or '-'}")
     out.append(Stream(f"nliter-all-interleavings-len<={Li}", reqs, kind="exhaustive", exhaustive=True,
-                      note="every next/next_back interleaving of length lines+1 (one call past exhaustion)",
+                      note="every next/next_back interleaving of every length up to lines+1 (one call past "
+                           "exhaustion), then last() on what is left",
                       nontrivial=lambda r: r.split()[1] != "-"))
     # the iterator / Line::new next to u32::MAX: exact fit, one past, far past
     Lb = 3 if ctx.quick else 4
@@ -470,7 +485,7 @@ def streams(ctx):
         t = b"".join(rng.choice(alpha) for _ in range(k))
         reqs.append(f"lineidx {hexs(t)}")
         nl = len(_split_lines(t))
-        ops = "".join(rng.choice("fb") for _ in range(nl + 2))
+        ops = "".join(rng.choice("fb") for _ in range(rng.randrange(0, nl + 3))) or "-"
         reqs.append(f"nliter {hexs(t)} {rng.choice([0, 1, 400, 2**31])} {ops}")
         if k <= 12:
             n = len(t)
